@@ -166,6 +166,9 @@ type runner struct {
 	cases *bufio.Writer     // worker mode: hashes of the non-trivial case keys
 	ksig  map[string]string // cache key of a regex atom -> its matcher tables (KeySound check)
 	prev  []savedPred
+	marsh map[string]string // marshalled bytes -> value (injectivity of marshalTagValue over the run)
+	journal  *os.File // crash replay mode: every op is written (and synced) before and after it runs
+	progress string   // worker mode: file that names the history being run
 	c    *hx.Ctx
 	r    *hx.Rng
 	h    *history
@@ -175,7 +178,28 @@ type runner struct {
 	reop bool // a reopen/restart happened before
 }
 
-func (rn *runner) emit(op, ans string) int { return rn.c.Emit(op, ans) }
+func (rn *runner) emit(op, ans string) int {
+	if rn.journal != nil {
+		fmt.Fprintf(rn.journal, "=\t%s\t%s\n", op, ans)
+		_ = rn.journal.Sync()
+	}
+	return rn.c.Emit(op, ans)
+}
+
+// intent names the op that is about to run on the real index (crash replay mode only): if the
+// process dies inside it, the journal ends with this line.
+func (rn *runner) intent(op string) {
+	if rn.journal != nil {
+		fmt.Fprintf(rn.journal, "?\t%s\n", op)
+		_ = rn.journal.Sync()
+	}
+}
+
+func (rn *runner) mark(token string) {
+	if rn.progress != "" {
+		_ = os.WriteFile(rn.progress, []byte(token), 0o644)
+	}
+}
 
 func (rn *runner) caseOf(key string, nontrivial bool) {
 	rn.c.Case(key, nontrivial)
@@ -217,6 +241,7 @@ func (rn *runner) opInsert(si int) {
 	op := fmt.Sprintf("ins %s %s", hx2(rn.h.msts[s.mst]), tagsToken(s.tags))
 	var id uint64
 	var err error
+	rn.intent(op)
 	perr := hx.Safe(func() { id, err = rn.e.insert(rn.h, s) })
 	if perr != "" || err != nil {
 		line := rn.emit(op, errText(perr, err))
@@ -250,6 +275,7 @@ func (rn *runner) opGet(si int) {
 	op := fmt.Sprintf("get %s %s", hx2(rn.h.msts[s.mst]), tagsToken(s.tags))
 	var id uint64
 	var err error
+	rn.intent(op)
 	perr := hx.Safe(func() { id, err = rn.e.get(rn.h, s) })
 	if perr != "" || err != nil {
 		line := rn.emit(op, errText(perr, err))
@@ -267,6 +293,7 @@ func (rn *runner) opGet(si int) {
 
 func (rn *runner) simple(name string, f func() error, after func()) {
 	var err error
+	rn.intent(name)
 	perr := hx.Safe(func() { err = f() })
 	rn.c.Count("op:" + strings.Fields(name)[0])
 	if perr != "" || err != nil {
@@ -357,6 +384,7 @@ func (rn *runner) searchWith(kind string, mi int, p *pnode, res []*reAtom) {
 	var ids []uint64
 	var texts []string
 	var err error
+	rn.intent(op)
 	perr := hx.Safe(func() {
 		switch kind {
 		case "show":
@@ -632,6 +660,7 @@ func (rn *runner) opTagVals() {
 	op := fmt.Sprintf("tagvals %s %s %s", hx2(mst), hx2(key), predTokens(p, res))
 	var vals []string
 	var err error
+	rn.intent(op)
 	perr := hx.Safe(func() { vals, err = rn.e.tagvals(mst, key, p) })
 	rn.c.Count("op:tagvals")
 	if perr != "" || err != nil {
@@ -688,6 +717,7 @@ func (rn *runner) deleteWith(mi int, p *pnode, res []*reAtom) {
 	mst := rn.h.msts[mi]
 	op := fmt.Sprintf("del %s %s", hx2(mst), predTokens(p, res))
 	var err error
+	rn.intent(op)
 	perr := hx.Safe(func() { err = rn.e.delete(mst, p) })
 	rn.c.Count("op:del")
 	if perr != "" || err != nil {
@@ -732,6 +762,9 @@ func (rn *runner) withEnv(tag string, body func()) {
 	rn.reop, rn.dead = false, false
 	rn.prev = nil
 	rn.ksig = map[string]string{}
+	if rn.marsh == nil {
+		rn.marsh = map[string]string{}
+	}
 	root := os.Getenv("VERIF_SCRATCH")
 	if root == "" {
 		root = "/var/tmp/c10-harness"
@@ -779,9 +812,12 @@ func (rn *runner) runOps(nOps int, big bool) {
 			rn.opInsert(i)
 		}
 	}
+	rn.byteBlock(4 + r.Intn(6))
 	for k := 0; k < nOps && !rn.dead; k++ {
-		x := r.Intn(100)
+		x := r.Intn(108)
 		switch {
+		case x >= 100:
+			rn.opScan()
 		case x < 22:
 			rn.opInsert(r.Intn(nU))
 		case x < 27:
@@ -789,7 +825,7 @@ func (rn *runner) runOps(nOps int, big bool) {
 		case x < 39:
 			rn.simple("flush", func() error { rn.e.main.idx.DebugFlush(); return nil }, rn.sp.flush)
 		case x < 43:
-			rn.simple("clear", func() error { return rn.e.main.idx.ClearCache() }, nil)
+			rn.simple("clear", func() error { return rn.e.main.idx.ClearCache() }, rn.sp.flush) // ClearCache flushes first (fix d720cb5)
 		case x < 46:
 			rn.simple("reopen", rn.e.reopen, func() { rn.sp.flush(); rn.reop = true })
 		case x < 49:
@@ -829,9 +865,14 @@ func Run(c *hx.Ctx) error {
 	if v := c.Arg("ops", ""); v != "" {
 		fmt.Sscanf(v, "%d", &nOps)
 	}
-	only := -1
+	only, onlyDirected := -1, -1
 	if v := c.Arg("only", ""); v != "" {
-		fmt.Sscanf(v, "%d", &only)
+		if strings.HasPrefix(v, "d") {
+			fmt.Sscanf(v[1:], "%d", &onlyDirected)
+			only = 1 << 30
+		} else {
+			fmt.Sscanf(v, "%d", &only)
+		}
 	}
 	workers, _ := strconv.Atoi(c.Arg("workers", "1"))
 	worker := -1
@@ -842,6 +883,14 @@ func Run(c *hx.Ctx) error {
 		return runParallel(c, workers, nHist, nOps)
 	}
 	rn := &runner{c: c}
+	if v := c.Arg("journal", ""); v != "" {
+		jf, err := os.Create(v)
+		if err != nil {
+			return err
+		}
+		defer jf.Close()
+		rn.journal = jf
+	}
 	if worker >= 0 {
 		f, err := os.Create(filepath.Join(c.Out, "cases.txt"))
 		if err != nil {
@@ -850,10 +899,15 @@ func Run(c *hx.Ctx) error {
 		defer f.Close()
 		rn.cases = bufio.NewWriter(f)
 		defer rn.cases.Flush()
+		rn.progress = filepath.Join(c.Out, "progress.txt")
 	}
-	if only < 0 && worker <= 0 {
+	if (only < 0 && worker <= 0) || onlyDirected >= 0 {
 		rn.r = hx.NewRng(c.Seed)
 		for i := range directed {
+			if onlyDirected >= 0 && i != onlyDirected {
+				continue
+			}
+			rn.mark(fmt.Sprintf("d%d", i))
 			rn.runDirected(i)
 		}
 	}
@@ -865,6 +919,7 @@ func Run(c *hx.Ctx) error {
 			continue
 		}
 		// one PRNG per history: a history replays alone with -D only=<index>
+		rn.mark(fmt.Sprint(hi))
 		rn.r = hx.NewRng(c.Seed*1000003 + uint64(hi))
 		big := rn.r.Chance(1)
 		n := nOps/2 + rn.r.Intn(nOps)
@@ -904,14 +959,53 @@ func runParallel(c *hx.Ctx, workers, nHist, nOps int) error {
 		}(k)
 	}
 	wg.Wait()
-	for _, e := range errs {
-		if e != nil {
+	crashed := map[int]bool{}
+	for k, e := range errs {
+		if e == nil {
+			continue
+		}
+		// the process that ran the real index died (a panic outside the calling goroutine, a fatal
+		// error): run the history it was in once more, alone, with a synced journal, and report
+		// the ops up to the crash as the failing sequence
+		tok, rerr := os.ReadFile(filepath.Join(c.Out, fmt.Sprintf("w%d", k), "progress.txt"))
+		if rerr != nil {
 			return e
 		}
+		crashed[k] = true
+		jpath := filepath.Join(c.Out, fmt.Sprintf("crash-w%d.journal", k))
+		cmd := exec.Command(exe, "C10", "-seed", fmt.Sprint(c.Seed), "-tier", c.Tier, "-n", fmt.Sprint(nHist), "-out", filepath.Join(c.Out, fmt.Sprintf("crash-w%d", k)),
+			"-D", "only="+string(tok), "-D", "journal="+jpath, "-D", fmt.Sprintf("ops=%d", nOps))
+		cmd.Env = os.Environ()
+		b, cerr := cmd.CombinedOutput()
+		what := firstPanicLine(string(b))
+		if cerr == nil {
+			what = firstPanicLine(e.Error()) + " (not reproduced when the history ran alone)"
+		}
+		last := 0
+		if jl, jerr := readLines(jpath); jerr == nil {
+			for _, l := range jl {
+				parts := strings.SplitN(l, "\t", 3)
+				if parts[0] == "=" && len(parts) == 3 {
+					last = c.Emit(parts[1], parts[2])
+				}
+			}
+			if n := len(jl); n > 0 && strings.HasPrefix(jl[n-1], "?\t") && cerr != nil {
+				last = c.Emit(strings.TrimPrefix(jl[n-1], "?\t"), "crash")
+			}
+		}
+		if last == 0 {
+			last = c.Emit("open "+string(tok), "crash")
+		}
+		c.Violation(last, "", fmt.Sprintf("the process running the index died in history %s: %s", tok, what))
+		_ = os.RemoveAll(filepath.Join(c.Out, fmt.Sprintf("crash-w%d", k)))
 	}
 	seen := map[string]struct{}{}
 	evals := 0
 	for k := 0; k < workers; k++ {
+		if crashed[k] {
+			_ = os.RemoveAll(filepath.Join(c.Out, fmt.Sprintf("w%d", k)))
+			continue
+		}
 		dir := filepath.Join(c.Out, fmt.Sprintf("w%d", k))
 		ops, err := readLines(filepath.Join(dir, "ops.txt"))
 		if err != nil {
@@ -959,6 +1053,21 @@ func runParallel(c *hx.Ctx, workers, nHist, nOps int) error {
 	c.Stats.DistinctNontrivial = len(seen)
 	c.Stats.Notes = append(c.Stats.Notes, fmt.Sprintf("histories ran in %d worker processes", workers))
 	return nil
+}
+
+func firstPanicLine(out string) string {
+	for _, l := range strings.Split(out, "\n") {
+		if strings.Contains(l, "panic") || strings.Contains(l, "fatal error") || strings.Contains(l, "FATAL") {
+			if len(l) > 300 {
+				l = l[:300]
+			}
+			return strings.TrimSpace(l)
+		}
+	}
+	if len(out) > 300 {
+		out = out[len(out)-300:]
+	}
+	return strings.TrimSpace(strings.ReplaceAll(out, "\n", " "))
 }
 
 func readLines(path string) ([]string, error) {
